@@ -127,6 +127,7 @@ func main() {
 	summary := map[string]any{}
 	var syncFiles, syncRepointed, syncLeft []string
 	var goStmts, chanOps []string
+	uncontrolled := map[string][]string{} // package -> files importing it
 	pkgs := map[string]bool{}
 	for _, f := range files {
 		rel, _ := filepath.Rel(*root, f)
@@ -143,6 +144,12 @@ func main() {
 			continue // a program, not library code
 		}
 		pkgs[filepath.Dir(rel)] = true
+		for _, im := range af.Imports {
+			switch ip, _ := strconv.Unquote(im.Path.Value); ip {
+			case "time", "math/rand", "math/rand/v2", "crypto/rand", "os", "runtime", "weak", "unique", "hash/maphash":
+				uncontrolled[ip] = append(uncontrolled[ip], rel)
+			}
+		}
 		res := instrumentFile(fset, af, src, rel, *repoint)
 		if res.importsSync {
 			syncFiles = append(syncFiles, rel)
@@ -197,6 +204,8 @@ func main() {
 	summary["sync_repointed"] = syncRepointed
 	summary["sync_left_real"] = syncLeft
 	summary["go_statements"] = goStmts
+	// sources of nondeterminism the simulator does not own (none on the pinned tree)
+	summary["uncontrolled_imports"] = uncontrolled
 	summary["chan_ops"] = chanOps
 	b, _ := json.MarshalIndent(summary, "", " ")
 	fmt.Println(string(b))
